@@ -194,13 +194,26 @@ class DebugInfo:
                                         end_offset)
                 if not marked:
                     # every statement of the block was removed by the
-                    # optimiser: the block's own code still belongs
-                    # to its start statement
+                    # optimiser. their (now empty) records still tell
+                    # where the body was: the code before it belongs
+                    # to the start statement, the code after it to
+                    # the end statement. (with no such record the
+                    # block's code stays with its start statement.)
+                    body_at = [
+                        stmt.start_offset for stmt in self.stmts
+                        if stmt.start_offset == stmt.end_offset and
+                        start_offset <= stmt.start_offset <= end_offset and
+                        stmt.source_start_offset is not None and
+                        block.start_stmt.loc_end <=
+                        stmt.source_start_offset <
+                        block.end_stmt.loc_start
+                    ]
+                    split_at = min(body_at) if body_at else end_offset
                     add_node_record(block.start_stmt,
                                     start_offset,
-                                    end_offset)
+                                    split_at)
                     add_node_record(block.end_stmt,
-                                    end_offset,
+                                    split_at,
                                     end_offset)
 
         self.stmts.sort(key=lambda r: r.start_offset)
